@@ -1,8 +1,12 @@
 /-
-C12 — feature encoder contract.  Property theorems only (helper lemmas: TFVerif/Proofs/Encoder.lean,
-TFVerif/Proofs/Lazy.lean).
+C12 — feature encoder contract: shape, column order, finiteness, accepts all materialized data,
+lazy = eager construction, unsupported pairings rejected.
+Property theorems only (helper lemmas: TFVerif/Proofs/Encoder.lean, TFVerif/Proofs/Lazy.lean).
+Every theorem is for arbitrary batch sizes, column counts, channel counts, parameter values and (where a
+scalar occurs) an arbitrary scalar record `S : SOps R`.
 -/
 import TFVerif.Proofs.Encoder
+import TFVerif.Proofs.Lazy
 import TFVerif.Gen.Encoder
 
 namespace TFVerif.C12
@@ -24,5 +28,240 @@ theorem gen_eq_model_wiseOk : Gen.Encoder.wiseAccepted = wiseAccepted.map triple
 
 theorem gen_eq_model_cyclicConst : Gen.Encoder.cyclicConst = cyclicConst ∧
     Gen.Encoder.timeIndex.map (·.2) = List.range 7 ∧ Gen.Encoder.timeIndex.head? = some ("YEAR", 0) := by decide
+
+/-- unsupported stype/encoder pairings are rejected at construction: whatever the stype-wise encoder accepts is
+    a parent stype, listed in the class's `supported_stypes`, with an NA strategy valid for that stype; and each of
+    the nine parameterised classes serves exactly one stype -/
+theorem unsupported_pairings_rejected :
+    (∀ t ∈ allTriples, wiseOk t.1 t.2.1 t.2.2 = true →
+        t.2.1.parent = t.2.1 ∧ t.2.1 ∈ supported t.1 ∧ naOk t.2.1 t.2.2 = true) ∧
+    (∀ c ∈ EncClass.all, c ≠ .linearModel → (supported c).length = 1) ∧
+    (∀ c ∈ EncClass.all, ∀ s ∈ [Stype.text_embedded, Stype.image_embedded, Stype.sequence_numerical],
+        ∀ n ∈ (none :: NA.all.map some), wiseOk c s n = false) := by decide
+
+example : wiseOk .linear .numerical (some .mean) = true ∧ wiseOk .linear .categorical none = false ∧
+    wiseOk .timestamp .timestamp (some .zeros) = false := by decide
+
+/-! ### shape and column order -/
+
+variable {R : Type} (S : SOps R)
+
+/-- what `init_modules` builds from the statistics of `C` columns is well-formed for `C` columns and `ch`
+    channels (all per-column parameter lists have `C` entries, all channel vectors `ch`) -/
+theorem init_modules_wellformed (st : Stype) (na : Option NA) (stats : List (ColStat R)) (ch : Nat)
+    (w : Weights R) (post : Post R) (e : Encoder R) (hpost : Post.WF post ch)
+    (h : initModules S st na stats ch w post = some e) : Encoder.WF e stats.length ∧ e.ch = ch :=
+  initModules_wf S st na stats ch w post e hpost h
+
+/-- one stype encoder: for every batch size `B ≥ 0` the output is `[B, C, out_channels]` (and the number of
+    names handed in equals `C`, otherwise the call raises) -/
+theorem forward_shape (e : Encoder R) (B C n : Nat) (feat : Feat R) (o : Out R)
+    (he : Encoder.WF e C) (hf : Feat.WF feat B C) (h : forward S e B C n feat = some o) :
+    n = C ∧ o.b = B ∧ o.c = C ∧ o.ch = e.ch ∧ T3WF o.data B C e.ch :=
+  Enc.forward_shape S e B C n feat o he hf h
+
+def exStats : List (ColStat Int) := [.num 1 2 [0, 1, 2, 3, 4], .num 0 1 [0, 0, 0, 0, 0]]
+def exEnc : Option (Encoder Int) :=
+  initModules toy .numerical (some .mean) exStats 2 (.linear [[1, 2], [3, 4]] [[0, 0], [1, 1]]) .relu
+
+example : ∃ e o, exEnc = some e ∧ Encoder.WF e 2 ∧ Feat.WF (.num [[1, 2], [3, 4], [5, 6]] : Feat Int) 3 2 ∧
+    forward toy e 3 2 2 (.num [[1, 2], [3, 4], [5, 6]]) = some o ∧ o.data.length = 3 ∧
+    forward toy e 0 2 2 (.num []) = some ⟨0, 2, 2, []⟩ :=
+  ⟨_, _, rfl, (initModules_wf toy _ _ _ _ _ _ _ trivial rfl).1, ⟨rfl, by decide⟩, rfl, rfl, rfl⟩
+
+/-- `shape_and_names`: the stype-wise encoder returns `[B, Σ group sizes, ch]` for every `B ≥ 0`; the names are
+    the groups' names in canonical stype order; names and every row of the tensor are concatenations over the
+    same blocks, block `p` contributing `p.1.c = p.2.length` names and as many columns — i.e. the names are in
+    the order of the tensor's column axis -/
+theorem shape_and_names (w : Wise R) (tf : List (Group R)) (B ch : Nat) (x : Out R) (names : List String)
+    (hg : ∀ s g nm e, tf.find? (·.st == s) = some g → w.colNames.lookup s = some nm → w.encoders.lookup s = some e →
+          g.rows = B ∧ e.ch = ch ∧ Encoder.WF e g.cols ∧ Feat.WF g.feat B g.cols)
+    (h : wiseForward S w tf = some (x, names)) :
+    ∃ parts, gather (wisePart S w tf) (canonicalStypes tf) = some parts ∧
+      x.b = B ∧ x.ch = ch ∧ x.c = names.length ∧ T3WF x.data B x.c ch ∧
+      names = (canonicalStypes tf).flatMap (fun s => (w.colNames.lookup s).getD []) ∧
+      names = parts.flatMap (·.2) ∧
+      x.data = (List.range B).map (fun r => parts.flatMap fun p => p.1.data.getD r []) ∧
+      ∀ p ∈ parts, GoodPart B ch p :=
+  wise_shape_and_names S w tf B ch x names hg h
+
+def exCat : Option (Encoder Int) :=
+  initModules toy .categorical none [.cat 2] 2 (.embedding [[0, 0], [5, 6], [7, 8]]) .none
+/-- a frame listing its blocks in non-canonical order: categorical first -/
+def exTF : List (Group Int) :=
+  [⟨.categorical, 2, 1, .cat [[1], [-1]]⟩, ⟨.numerical, 2, 2, .num [[1, 2], [3, 4]]⟩]
+def exWise (e1 e2 : Encoder Int) : Wise Int :=
+  { colNames := [(.categorical, ["k"]), (.numerical, ["a", "b"])], encoders := [(.categorical, e2), (.numerical, e1)] }
+
+example : ∃ e1 e2 x, exEnc = some e1 ∧ exCat = some e2 ∧
+    wiseForward toy (exWise e1 e2) exTF = some (x, ["a", "b", "k"]) ∧ (x.b, x.c, x.ch) = (2, 3, 2) ∧
+    x.data.map (·.length) = [3, 3] ∧ cell x.data 1 2 = some [0, 0] :=
+  ⟨_, _, _, rfl, rfl, rfl, rfl, rfl, rfl⟩
+
+/-- "accepts any batch": if the encoder accepts a frame it accepts every selection of its rows — a single row,
+    the empty selection (all three empty forms select no row), repetitions, permutations — with shape `[|idx|, C, ch]` -/
+theorem accepts_every_batch (e : Encoder R) (B C n : Nat) (feat : Feat R) (o : Out R) (idx : List Nat)
+    (h : forward S e B C n feat = some o) :
+    ∃ o', forward S e idx.length C n (feat.selectRows idx) = some o' ∧ o'.b = idx.length ∧ o'.c = C ∧ o'.ch = e.ch :=
+  forward_accepts_batch S e B C n feat o idx h
+
+example : ∃ e, exEnc = some e ∧ (forward toy e 3 2 2 (.num [[1, 2], [3, 4], [5, 6]])).isSome ∧
+    (forward toy e 0 2 2 ((Feat.num [[1, 2], [3, 4], [5, 6]]).selectRows [])).isSome ∧
+    (forward toy e 4 2 2 ((Feat.num [[1, 2], [3, 4], [5, 6]]).selectRows [2, 2, 0, 1])).isSome :=
+  ⟨_, rfl, rfl, rfl, rfl⟩
+
+/-! ### whatever the mappers emit lies inside the encoders' domains -/
+
+/-- `embedding_index_in_range`: with `n_c` fitted categories per column, a category index `0 ≤ v < n_c` of column
+    `c` is sent to a row in `[1, Σ n]` of the shared table (which has `Σ n + 1` rows); a missing cell to row 0 -/
+theorem embedding_index_in_range (ns : List Nat) (c : Nat) (hc : c < ns.length) (off v : Int)
+    (hoff : (embOffsets ns)[c]? = some off) :
+    (v < 0 → embIndex off v = 0) ∧
+    (0 ≤ v → v < ns[c] → 1 ≤ embIndex off v ∧ embIndex off v ≤ ns.sum) :=
+  ⟨fun h => by simp [embIndex, h], fun h0 h1 => embIndex_in_range ns c hc off v hoff h0 h1⟩
+
+example : (embOffsets [3, 2, 4])[1]? = some 3 ∧ embIndex 3 1 = 5 ∧ embIndex 3 (-1) = 0 := by decide
+
+/-- `embedding_index_injective`: distinct (column, category) pairs never share a table row -/
+theorem embedding_index_injective (ns : List Nat) (c c' : Nat) (hc : c < ns.length) (hc' : c' < ns.length)
+    (off off' v v' : Int)
+    (hoff : (embOffsets ns)[c]? = some off) (hoff' : (embOffsets ns)[c']? = some off')
+    (h0 : 0 ≤ v) (h1 : v < ns[c]) (h0' : 0 ≤ v') (h1' : v' < ns[c'])
+    (heq : embIndex off v = embIndex off' v') : c = c' ∧ v = v' :=
+  embIndex_injective ns c c' hc hc' off off' v v' hoff hoff' h0 h1 h0' h1' heq
+
+example : (List.range 3).flatMap (fun c => (List.range ([3, 2, 4].getD c 0)).map fun v =>
+    embIndex ((embOffsets [3, 2, 4]).getD c 0) v) = [1, 2, 3, 4, 5, 6, 7, 8, 9] := by decide
+
+/-- `bag_index_in_range`: every entry `-1 ≤ t < n_c` of a multicategorical cell is a legal row of the column's
+    `EmbeddingBag(n_c + 1)` after the `+ 1` shift -/
+theorem bag_index_in_range (table : Mat R) (n : Nat) (bag : List Int) (ht : table.length = n + 1)
+    (hb : ∀ t ∈ bag, -1 ≤ t ∧ t < n) : bagInRange table bag = true :=
+  bagInRange_of_bounds table n bag ht hb
+
+example : bagInRange ([[0], [1], [2]] : Mat Int) [-1] = true ∧ bagInRange ([[0], [1], [2]] : Mat Int) [1, 0] = true ∧
+    bagInRange ([[0], [1], [2]] : Mat Int) [2] = false := by decide
+
+/-- `calendar_in_encoder_domain`: seven calendar components in the ranges the timestamp mapper emits
+    (C01 `calendar_ranges`) with a year not below the fitted minimum pass the domain assertions of
+    `PositionalEncoding` (year − min_year ≥ 0) and `CyclicEncoding` (0 ≤ component / constant ≤ 1) -/
+theorem calendar_in_encoder_domain (minYear y mo d wd h mi s : Int)
+    (hy : minYear ≤ y) (h1 : 0 ≤ mo ∧ mo ≤ 11) (h2 : 0 ≤ d ∧ d ≤ 30) (h3 : 0 ≤ wd ∧ wd ≤ 6)
+    (h4 : 0 ≤ h ∧ h ≤ 23) (h5 : 0 ≤ mi ∧ mi ≤ 59) (h6 : 0 ≤ s ∧ s ≤ 59) :
+    tsDomainOk cyclicConst [y, mo, d, wd, h, mi, s] minYear = true :=
+  tsDomainOk_of_ranges minYear y mo d wd h mi s hy h1 h2 h3 h4 h5 h6
+
+example : tsDomainOk cyclicConst [1999, 11, 30, 4, 23, 59, 59] 1999 = true ∧
+    tsDomainOk cyclicConst [1998, 0, 0, 0, 0, 0, 0] 1999 = false ∧
+    tsDomainOk cyclicConst [-1, -1, -1, -1, -1, -1, -1] 1999 = true := by decide
+
+/-- the fitted minimum year (`YEAR_RANGE[0]`) is below every fitted year, so fitted data satisfies `hy` above -/
+theorem fitted_year_ge_min (ys : List Int) : ∀ y ∈ ys, yearMin ys ≤ y := yearMin_le ys
+
+example : yearMin [2020, 1999, 2021] = 1999 := by decide
+
+/-- `embdim_matches_offsets`: the slices `[start, start + EMB_DIM)` the encoder cuts from `values` by
+    accumulating `EMB_DIM` coincide with the container's own column offsets -/
+theorem embdim_matches_offsets (dims : List Nat) (c : Nat) (hc : c < dims.length) :
+    (embStarts dims)[c]? = (metOffsets dims)[c]? ∧
+    ((embStarts dims)[c]?).map (· + dims[c]) = (metOffsets dims)[c + 1]? := by
+  rw [embStarts_getElem?, metOffsets_getElem?, metOffsets_getElem?]
+  have h1 : c ≤ dims.length := by omega
+  have h2 : c + 1 ≤ dims.length := by omega
+  simp [hc, h1, h2, sum_take_succ dims c hc]
+
+example : embStarts [2, 1, 3] = [0, 2, 3] ∧ metOffsets [2, 1, 3] = [0, 2, 3, 6] := by decide
+
+/-- `bucket_index_in_range`: the bucket index is at most the number of inner boundaries, so
+    `boundaries[i, idx]` and `boundaries[i, idx + 1]` are legal for any input, NaN included -/
+theorem bucket_index_in_range (bnd : List R) (x : R) (hb : 2 ≤ bnd.length) :
+    bucketize S ((bnd.drop 1).dropLast) x + 1 < bnd.length := by
+  have := bucketize_le S ((bnd.drop 1).dropLast) x
+  simp only [List.length_dropLast, List.length_drop] at this
+  omega
+
+example : bucketize toy [1, 2, 3] 0 = 0 ∧ bucketize toy [1, 2, 3] 2 = 1 ∧ bucketize toy [1, 2, 3] 9 = 3 := by decide
+
+/-! ### finiteness -/
+
+/-- `no_nan_out`: over the NaN-lifted scalar, whatever the input (any pattern of missing cells) and whatever the
+    parameters, no entry of the output is NaN (post modules none / ReLU / Tanh) -/
+theorem no_nan_out (e : Encoder (Option R)) (B C n : Nat) (feat : Feat (Option R)) (o : Out (Option R))
+    (hp : PostNaNSafe e.post) (h : forward S.lift e B C n feat = some o) :
+    ∀ row ∈ o.data, ∀ v ∈ row, ∀ x ∈ v, x.isSome = true :=
+  forward_no_nan S e B C n feat o hp h
+
+example : (forward toy.lift ⟨1, none, .stack ⟨[some 0], [some 1]⟩, .relu⟩ 2 1 1 (.num [[none], [some 4]])).map (·.data)
+    = some [[[some 0]], [[some 4]]] := by decide
+
+section field
+variable {K : Type} [Field K] [LinearOrder K] [IsStrictOrderedRing K]
+variable (sin cos tanh sqrt : K → K) (pow : K → K → K) (pi : K)
+
+/-- the denominators `std + 1e-6` and `boundary_end − boundary_start + 1e-8` are non-zero in every ordered field -/
+theorem denominators_nonzero (std st en : K) (h : 0 ≤ std) (hb : st ≤ en) :
+    let F := fieldOps sin cos tanh sqrt pow pi
+    F.isZero (F.add std (F.ofSci 1 6)) = false ∧ F.isZero (F.add (F.sub en st) (F.ofSci 1 8)) = false :=
+  ⟨std_denominator_ne_zero sin cos tanh sqrt pow pi std h, bucket_denominator_ne_zero sin cos tanh sqrt pow pi st en hb⟩
+
+/-- with the lifted scalar whose division by zero is non-finite: a non-missing cell, finite parameters and a
+    non-negative standard deviation give an all-finite embedding *before* `nan_to_num` — that step only ever
+    changes missing cells -/
+theorem nonmissing_finite_before_nan_to_num (m std x : K) (w b : List K) (h : 0 ≤ std) :
+    let L := (fieldOps sin cos tanh sqrt pow pi).lift
+    ∀ y ∈ cellLinear L (some m) (L.add (some std) (L.ofSci 1 6)) (w.map some) (b.map some) (some x),
+      y.isSome = true :=
+  linear_nonmissing_finite sin cos tanh sqrt pow pi m std x w b h
+
+example : (0 : Rat) ≤ 0 ∧ (fieldOps (R := Rat) id id id id (fun a _ => a) 3).isZero
+    ((fieldOps (R := Rat) id id id id (fun a _ => a) 3).add 0 ((fieldOps (R := Rat) id id id id (fun a _ => a) 3).ofSci 1 6)) = false :=
+  ⟨le_refl _, std_denominator_ne_zero id id id id (fun a _ => a) 3 0 (le_refl _)⟩
+end field
+
+/-! ### lazy construction (`torch_frame.nn.base.Module`) -/
+
+open TFVerif.Lazy in
+/-- `lazy_equals_eager`: whichever of the three lazy attributes are given to the constructor and in whichever of
+    the six orders the others are assigned afterwards, the object ends up with exactly what eager construction
+    builds: the same `init_modules` result from the same attribute values, fired once (or the same exception) -/
+theorem lazy_equals_eager {V B : Type} (init : List (Option V) → Option B) (val : Attr → V) (p q : Option V)
+    (given : Attr → Bool) (order : List Attr) (ho : order ∈ orders) :
+    outcome ((construct init (ctorArgs given val p q)).bind fun m => setattrs init m (laterArgs given val order)) =
+    outcome (construct init (ctorArgs (fun _ => true) val p q)) :=
+  lazy_eq_eager init val p q given order ho
+
+open TFVerif.Lazy in
+example : outcome ((construct (fun vs => some vs) (ctorArgs (fun _ => false) (fun _ => 7) none (some 1))).bind
+      fun m => setattrs (fun vs => some vs) m (laterArgs (fun _ => false) (fun _ => 7) [.stype, .outChannels, .statsList]))
+    = some (some [some 7, some 7, some 7, none, some 1], 1, []) := by decide
+
+open TFVerif.Lazy in
+/-- `init_modules` fires exactly when the missing set empties outside `__init__`, and only then: after any
+    constructor call followed by any sequence of assignments (any keys, `None` values, repetitions) it has run
+    exactly once if nothing is missing and not at all otherwise -/
+theorem init_fires_exactly_once {V B : Type} (init : List (Option V) → Option B)
+    (args evs : List (Attr × Option V)) (m m' : Mod V B)
+    (hc : construct init args = some m) (hs : setattrs init m evs = some m') :
+    (m'.missing = [] → m'.fired = 1 ∧ m'.built.isSome = true) ∧ (m'.missing ≠ [] → m'.fired = 0 ∧ m'.built = none) :=
+  (setattrs_settled init evs m m' (construct_settled init args m hc) hs).2
+
+open TFVerif.Lazy in
+/-- `incomplete_refuses`: a lazy attribute that never receives a non-`None` value (neither in the constructor
+    nor later) keeps the module incomplete, and an incomplete module refuses to run -/
+theorem incomplete_refuses {V B : Type} (init : List (Option V) → Option B)
+    (args evs : List (Attr × Option V)) (m m' : Mod V B) (k : Attr) (hk : k ∈ lazyAttrs)
+    (hargs : ∀ e ∈ args, e.1 = k → e.2 = none) (hevs : ∀ e ∈ evs, e.1 = k → e.2 = none)
+    (hc : construct init args = some m) (hs : setattrs init m evs = some m') : call m' = none := by
+  have h1 : k ∈ m.missing := construct_keeps_missing init args m k hk hargs hc
+  have h2 : k ∈ m'.missing := setattrs_keeps_missing init evs m m' k h1 hevs hs
+  unfold call validate
+  cases hm : m'.missing with
+  | nil => rw [hm] at h2; cases h2
+  | cons a as => simp [bind, Option.bind]
+
+open TFVerif.Lazy in
+example : ((construct (fun vs => some vs) [(.outChannels, some 2), (.statsList, none), (.stype, some 1)]).bind
+    fun m => (setattrs (fun vs => some vs) m [(.postModule, some 3), (.statsList, none)]).map call)
+    = some (none : Option (List (Option Nat))) := by decide
 
 end TFVerif.C12
